@@ -11,8 +11,8 @@ import (
 )
 
 var (
-	one  = big.NewInt(1)
-	p255 = new(big.Int).Sub(new(big.Int).Lsh(one, 255), big.NewInt(19))
+	one    = big.NewInt(1)
+	p255   = new(big.Int).Sub(new(big.Int).Lsh(one, 255), big.NewInt(19))
 	two255 = new(big.Int).Lsh(one, 255)
 	two256 = new(big.Int).Lsh(one, 256)
 )
@@ -47,7 +47,7 @@ var lowOrder = [][]byte{
 	hx.UnHex("eeffffffffffffffffffffffffffffffffffffffffffffffffffffffffffff7f"), // p+1 (alias of 1)
 }
 
-func add(b []byte, d int64) []byte { return le32(new(big.Int).Add(fromLE(b), big.NewInt(d))) }
+func add(b []byte, d int64) []byte       { return le32(new(big.Int).Add(fromLE(b), big.NewInt(d))) }
 func addBig(b []byte, d *big.Int) []byte { return le32(new(big.Int).Add(fromLE(b), d)) }
 
 // every encoding (32 bytes) that the RFC maps onto a low-order u: u, u+p (where < 2^255), each with bit 255 set
@@ -208,20 +208,24 @@ func gen(g *hx.Gen) {
 			for al := 0; al < 3; al++ {
 				emitX(scalarC(g, sc), pointC(g, pc), al)
 			}
-			g.Emit("iter k=%s u=%s n=2", hx.Hex(scalarC(g, sc)), hx.Hex(pointC(g, pc)))
-			g.Stat("pair.iter+" + lastSc + "+" + lastPt)
+			for rep := 0; rep < 2; rep++ {
+				g.Emit("iter k=%s u=%s n=%d", hx.Hex(scalarC(g, sc)), hx.Hex(pointC(g, pc)), 2+rep)
+				g.Stat("pair.iter+" + lastSc + "+" + lastPt)
+			}
 		}
 	}
-	for _, sa := range scClasses {
-		for al := 0; al < 2; al++ {
-			g.Emit("base s=%s d=%s alias=%d", hx.Hex(scalarC(g, sa)), hx.Hex(r.Bytes(32)), al)
-			g.Stat(fmt.Sprintf("pair.base+%s+alias%d", lastSc, al))
-		}
-		for _, sb := range scClasses {
-			a := scalarC(g, sa)
-			ca := lastSc
-			g.Emit("dh a=%s b=%s", hx.Hex(a), hx.Hex(scalarC(g, sb)))
-			g.Stat("pair.dh+" + ca + "+" + lastSc)
+	for rep := 0; rep < 3; rep++ {
+		for _, sa := range scClasses {
+			for al := 0; al < 2; al++ {
+				g.Emit("base s=%s d=%s alias=%d", hx.Hex(scalarC(g, sa)), hx.Hex(r.Bytes(32)), al)
+				g.Stat(fmt.Sprintf("pair.base+%s+alias%d", lastSc, al))
+			}
+			for _, sb := range scClasses {
+				a := scalarC(g, sa)
+				ca := lastSc
+				g.Emit("dh a=%s b=%s", hx.Hex(a), hx.Hex(scalarC(g, sb)))
+				g.Stat("pair.dh+" + ca + "+" + lastSc)
+			}
 		}
 	}
 	// every exit of x25519(): point length, scalar length, both, all-zero output, success
@@ -234,7 +238,7 @@ func gen(g *hx.Gen) {
 	g.Emit("x s=%s p=%s d=%s alias=0", hx.Hex(r.Bytes(32)), hx.Hex(append([]byte{9}, make([]byte, 31)...)), hx.Hex(r.Bytes(32)))
 	arms += 2
 	g.StatN(fmt.Sprintf("table.x25519-exits=%d/5", arms), 1)
-	n := g.Count(1700, 40000)
+	n := g.Count(1300, 40000)
 	for i := 0; i < n; i++ {
 		switch c := r.Intn(20); {
 		case c < 11:
@@ -250,13 +254,19 @@ func gen(g *hx.Gen) {
 			g.Emit("x s=%s p=%s d=%s alias=0", hx.Hex(r.Bytes(ls)), hx.Hex(r.Bytes(lp)), hx.Hex(r.Bytes(32)))
 		case c < 14:
 			g.Stat("base")
-			g.Emit("base s=%s d=%s alias=%d", hx.Hex(scalar(g)), hx.Hex(r.Bytes(32)), r.Intn(2))
+			al := r.Intn(2)
+			g.Emit("base s=%s d=%s alias=%d", hx.Hex(scalar(g)), hx.Hex(r.Bytes(32)), al)
+			g.Stat(fmt.Sprintf("pair.base+%s+alias%d", lastSc, al))
 		case c < 19:
 			g.Stat("dh")
-			g.Emit("dh a=%s b=%s", hx.Hex(scalar(g)), hx.Hex(scalar(g)))
+			a := scalar(g)
+			ca := lastSc
+			g.Emit("dh a=%s b=%s", hx.Hex(a), hx.Hex(scalar(g)))
+			g.Stat("pair.dh+" + ca + "+" + lastSc)
 		default:
 			g.Stat("iter")
 			g.Emit("iter k=%s u=%s n=%d", hx.Hex(scalar(g)), hx.Hex(point(g)), r.Range(2, 6))
+			g.Stat("pair.iter+" + lastSc + "+" + lastPt)
 		}
 	}
 }
